@@ -3,6 +3,7 @@ import FluteModel.Lemmas.NoCodeDec
 import FluteModel.Lemmas.NoCodeSession
 import FluteModel.Lemmas.FecSession
 import FluteModel.Lemmas.ObjSessExact
+import FluteModel.Lemmas.ObjSessTotal
 import FluteModel.Lemmas.DzExact
 /-
   C03  No silent corruption: 'complete' always means the sender's exact bytes.
@@ -255,7 +256,7 @@ all objects, `check_object_state` (remove + Drop), the time-out sweep, Drop of t
     only, an existing object ignores every later FDT instance, a new one attaches to the NEWEST instance listing the TOI); with a
     Content-MD5 the object then ends in `error` (`md5_mismatch_errors`), without one it can be completed from a mixture - engine family
     `toi-reuse` executes this, the byte-exactness oracle is switched off there (`expect <toi> x -`). -/
-theorem session_complete_implies_exact (PP : ObjSess.SParams) (cont : Nat → GSess) (L : ∀ t, (cont t).Laws PP.codec)
+theorem OfRun.session_complete_implies_exact (PP : ObjSess.SParams) (cont : Nat → GSess) (L : ∀ t, (cont t).Laws PP.codec)
     (cfg : ObjSess.SCfg) (ops : List ObjSess.SOp) (S' : ObjSess.Sess)
     (hops : ∀ op ∈ ops, ObjSess.SGenOp cont op)
     (h : ObjSess.Sess.run PP { cfg := cfg } ops = .ok S') :
@@ -264,6 +265,29 @@ theorem session_complete_implies_exact (PP : ObjSess.SParams) (cont : Nat → GS
   have h0 : ObjSess.SInv PP cont { cfg := cfg } := ⟨by simp, by simp, by simp⟩
   have h1 := ObjSess.sinv_run L ops hops h0 h
   exact ⟨fun c hc => h1.log c hc, fun o ho => (h1.objs o ho).exact⟩
+
+/-- **the session model never panics / hangs** (session-level totality, Lemmas/ObjSessTotal.lean): every ObjectReceiver the session
+    shell ever creates satisfies `TInv`, so `Sess.run` returns - input-side hypotheses only (the `Feasible` of the session: `DzOK` for
+    the parameters of every object, allocation limit < 2^63, packets `WfPkt`, FDT entries `WfFile`) -/
+theorem session_run_total (PP : ObjSess.SParams) (D : ∀ toi base, Nonempty (DzOK (PP.forObj toi base)))
+    (cfg : ObjSess.SCfg) (hmax : cfg.maxSize < 2 ^ 63) (ops : List ObjSess.SOp) (hwf : ∀ op ∈ ops, ObjSess.SWfOp op) :
+    ∃ S', ObjSess.Sess.run PP { cfg := cfg } ops = .ok S' := by
+  obtain ⟨S', h, _⟩ := ObjSess.sess_run_total (fun t b => Classical.choice (D t b)) ops hwf
+    (S := { cfg := cfg }) ⟨by simp, by simp, hmax⟩
+  exact ⟨S', h⟩
+
+/-- **complete ⇒ exact, for the whole session, WITHOUT a hypothesis on the outcome of the run**: the session run returns
+    (`session_run_total`) and every reported chunk / live object whose writer was told `complete` carries exactly the content of its
+    TOI (`OfRun.session_complete_implies_exact`) -/
+theorem session_complete_implies_exact (PP : ObjSess.SParams) (cont : Nat → GSess) (L : ∀ t, (cont t).Laws PP.codec)
+    (D : ∀ toi base, Nonempty (DzOK (PP.forObj toi base)))
+    (cfg : ObjSess.SCfg) (hmax : cfg.maxSize < 2 ^ 63) (ops : List ObjSess.SOp)
+    (hops : ∀ op ∈ ops, ObjSess.SGenOp cont op) (hwf : ∀ op ∈ ops, ObjSess.SWfOp op) :
+    ∃ S', ObjSess.Sess.run PP { cfg := cfg } ops = .ok S' ∧
+      (∀ c ∈ S'.log, ¬ noComplete c.all.reverse → writtenOf c.all.reverse = (cont c.toi).T) ∧
+      (∀ o ∈ S'.objects, ¬ noComplete o.st.out → o.st.written = (cont o.toi).T) := by
+  obtain ⟨S', h⟩ := session_run_total PP D cfg hmax ops hwf
+  exact ⟨S', h, OfRun.session_complete_implies_exact PP cont L cfg ops S' hops h⟩
 
 /-- non-vacuity of the session theorem: two interleaved objects (TOI 1 = [1,2,3], TOI 2 = [9]) announced by one FDT instance;
     the model session reports a chunk containing `complete` for each of them (and, before, the `new` + `open` of TOI 1) -/
